@@ -8,6 +8,30 @@ BASELINE_CMD = "cd /repo && /venv/bin/python -m pytest -ra -q -p no:cacheprovide
 PROOF_TECH = "contract-based deductive verification: sidecar contracts on the real functions, VCs generated from the Python ast of /repo's working tree by a symbolic executor (pyvc), discharged by z3 (cvc5 as second solver)"
 
 CHECKS = {
+    'C01': dict(
+        category='proof', design_ref='6/C01',
+        text="Post-conditions of every validation function on the path of full validation (stand-alone transaction rules, "
+             "duplicate-reference and duplicate-transaction checks, signature check, in-state transaction rules, both "
+             "block validators, CoinState.add_block) are proved from the current source for all inputs, with loops cut "
+             "by inductive invariants; lemma C01.accepted-block derives from these contracts that in every accepted "
+             "block every non-reward input is in the parent's unspent set, verifies under the spent output's key over "
+             "the signable form (all references, all outputs), is a real signature object, and that no reference occurs "
+             "twice in the block. Rejection leaves the (immutable) state value untouched: any write is a failing :frame "
+             "obligation.",
+        note="Assumed: ECDSA verify is a function of (key, signature, message) (A-ECDSA); ids/encodings are functions of "
+             "the object (defined under C07); A-FRESH for 'not created in the same block'; sets of transactions keyed by "
+             "id (A-KEY); the executor's model of Python (DESIGN section 4).",
+        technique=PROOF_TECH),
+    'C05': dict(
+        category='proof', design_ref='6/C05',
+        text="Proved from source for all inputs: proof of work is the numeric comparison id < target (for 32-byte "
+             "operands); the retarget arithmetic is exactly min(prev * elapsed // 1,209,600, 2^256-1) as 32 bytes; "
+             "the target is unchanged inside a 10,080 period and at a boundary computed from the index stored at the "
+             "block's own parent; height is parent+1 and equals the reward's height; timestamp is later than the "
+             "parent's and at most 30 s ahead; the evidence equals the recomputation.",
+        note="Assumed: Python bytes ordering on equal lengths is big-endian numeric order (A-LEX); int.from_bytes / "
+             "to_bytes are inverse on range (A-STRUCT); hashes are functions (A-HASH).",
+        technique=PROOF_TECH),
     'C16': dict(
         category='proof', design_ref='6/C16',
         text="For every height (all integers >= 0, no enumeration): get_block_subsidy equals the documented schedule "
